@@ -43,9 +43,39 @@ type handlerWithLogs struct {
 	counterMutex       sync.Mutex
 	counter            map[string]int
 
+	// The joined session, as it appears in the logs. Written by the main loop
+	// when a session is joined, read by the sender, receiver and summary
+	// goroutines: guarded by joinInfoMutex.
+	joinInfoMutex sync.RWMutex
 	sessionID     string
 	sessionUUID   string
 	participantID uint32
+}
+
+type joinInfo struct {
+	sessionID     string
+	sessionUUID   string
+	participantID uint32
+}
+
+func (h *handlerWithLogs) setJoinInfo(v joinInfo) {
+	h.joinInfoMutex.Lock()
+	defer h.joinInfoMutex.Unlock()
+
+	h.sessionID = v.sessionID
+	h.sessionUUID = v.sessionUUID
+	h.participantID = v.participantID
+}
+
+func (h *handlerWithLogs) info() joinInfo {
+	h.joinInfoMutex.RLock()
+	defer h.joinInfoMutex.RUnlock()
+
+	return joinInfo{
+		sessionID:     h.sessionID,
+		sessionUUID:   h.sessionUUID,
+		participantID: h.participantID,
+	}
 }
 
 func (h *handlerWithLogs) HandleConnect(conn *websocket.Conn) {
@@ -90,15 +120,17 @@ func (h *handlerWithLogs) HandleParticipantJoin(ctx context.Context, handleFrame
 		return nil
 	}
 
-	h.sessionID = h.GetSessions().GlobalSessionID(h.CurrentSession().ID)
-	h.sessionUUID = h.CurrentSession().SessionUUID
-	h.participantID = h.CurrentParticipant().ID
+	h.setJoinInfo(joinInfo{
+		sessionID:     h.GetSessions().GlobalSessionID(h.CurrentSession().ID),
+		sessionUUID:   h.CurrentSession().SessionUUID,
+		participantID: h.CurrentParticipant().ID,
+	})
 
 	logs.WithClientID(h.GetClientID()).
 		WithTag(logs.AppKeyTag, h.appKey).
-		WithTag(logs.SessionIDTag, h.sessionID).
-		WithTag("session_uuid", h.sessionUUID).
-		WithTag(logs.ParticipantIDTag, h.participantID).
+		WithTag(logs.SessionIDTag, h.info().sessionID).
+		WithTag("session_uuid", h.info().sessionUUID).
+		WithTag(logs.ParticipantIDTag, h.info().participantID).
 		WithTag("http_headers", struct {
 			UserAgent               string `json:"user_agent,omitempty"`
 			XForwardedFor           string `json:"x_forwarded_for,omitempty"`
@@ -118,8 +150,8 @@ func (h *handlerWithLogs) HandleDisconnect(err error) {
 	h.Handler.HandleDisconnect(err)
 	logs.WithClientID(h.GetClientID()).
 		WithTag(logs.AppKeyTag, h.appKey).
-		WithTag(logs.SessionIDTag, h.sessionID).
-		WithTag(logs.ParticipantIDTag, h.participantID).
+		WithTag(logs.SessionIDTag, h.info().sessionID).
+		WithTag(logs.ParticipantIDTag, h.info().participantID).
 		Info("client disconnected")
 }
 
@@ -131,16 +163,16 @@ func (h *handlerWithLogs) Receiver() hwebsocket.Receiver {
 		if err != nil && !errors.Is(err, io.EOF) && !errors.Is(err, net.ErrClosed) {
 			logs.WithClientID(h.GetClientID()).
 				WithTag(logs.AppKeyTag, h.appKey).
-				WithTag(logs.SessionIDTag, h.sessionID).
-				WithTag("session_uuid", h.sessionUUID).
-				WithTag(logs.ParticipantIDTag, h.participantID).
+				WithTag(logs.SessionIDTag, h.info().sessionID).
+				WithTag("session_uuid", h.info().sessionUUID).
+				WithTag(logs.ParticipantIDTag, h.info().participantID).
 				Error(errors.New("receiving message failed").Wrap(err))
 		} else if err == nil {
 			logs.WithClientID(h.GetClientID()).
 				WithTag(logs.AppKeyTag, h.appKey).
-				WithTag(logs.SessionIDTag, h.sessionID).
-				WithTag("session_uuid", h.sessionUUID).
-				WithTag(logs.ParticipantIDTag, h.participantID).
+				WithTag(logs.SessionIDTag, h.info().sessionID).
+				WithTag("session_uuid", h.info().sessionUUID).
+				WithTag(logs.ParticipantIDTag, h.info().participantID).
 				WithTag("msg_type", msg.TypeString()).
 				Debug("message received")
 			h.incCounter(msg.TypeString())
@@ -160,17 +192,17 @@ func (h *handlerWithLogs) Sender() hwebsocket.Sender {
 		if err != nil && !errors.Is(err, net.ErrClosed) {
 			logs.WithClientID(h.GetClientID()).
 				WithTag(logs.AppKeyTag, h.appKey).
-				WithTag(logs.SessionIDTag, h.sessionID).
-				WithTag("session_uuid", h.sessionUUID).
-				WithTag(logs.ParticipantIDTag, h.participantID).
+				WithTag(logs.SessionIDTag, h.info().sessionID).
+				WithTag("session_uuid", h.info().sessionUUID).
+				WithTag(logs.ParticipantIDTag, h.info().participantID).
 				WithTag("msg_type", msgType).
 				Error(errors.New("sending message failed").Wrap(err))
 		} else if err == nil {
 			logs.WithClientID(h.GetClientID()).
 				WithTag(logs.AppKeyTag, h.appKey).
-				WithTag(logs.SessionIDTag, h.sessionID).
-				WithTag("session_uuid", h.sessionUUID).
-				WithTag(logs.ParticipantIDTag, h.participantID).
+				WithTag(logs.SessionIDTag, h.info().sessionID).
+				WithTag("session_uuid", h.info().sessionUUID).
+				WithTag(logs.ParticipantIDTag, h.info().participantID).
 				WithTag("msg_type", msgType).
 				Debug("message sent")
 		}
@@ -217,9 +249,9 @@ func (h *handlerWithLogs) logSummary() {
 	entry := logs.
 		WithClientID(h.GetClientID()).
 		WithTag(logs.AppKeyTag, h.appKey).
-		WithTag(logs.ParticipantIDTag, h.participantID).
-		WithTag(logs.SessionIDTag, h.sessionID).
-		WithTag("session_uuid", h.sessionUUID).
+		WithTag(logs.ParticipantIDTag, h.info().participantID).
+		WithTag(logs.SessionIDTag, h.info().sessionID).
+		WithTag("session_uuid", h.info().sessionUUID).
 		WithTag("time_interval", h.summaryInterval)
 
 	for k, v := range h.counter {
